@@ -875,6 +875,15 @@ def _td7_loop(ck, repo, nf, afn):
                 if witness is None:
                     continue
             n_def += 1
+            # a constant that is assigned *after* this step's assessment and still reaches the loop replaces what the assessment released
+            # (the window's counters were already reset by the assessment: those iterations are lost)
+            after = cfg.paths_avoiding(n.id, d.node, {lp.id, L.step_node})
+            onward = cfg.paths_avoiding(d.node, lp.id, {n.id, L.step_node}) if after is not None else None
+            if after is not None and onward is not None:
+                ck.ob("R5-release-loop", TQ, f"release-not-overwritten:{short(d_ast, 40)}", False, f"`{short(d_ast, 60)}` lies between the assessment and the release loop",
+                      "the number of iterations released by the assessment is overwritten before the release loop runs: the assessment has already reset the window counters, so the collected steps are never trained on",
+                      loc(mi, d_ast), cfg.describe_path(after + onward[1:]))
+                continue
             ck.ob("R5-release-loop", TQ, f"default-release:{short(d_ast, 40)}", val == 0, f"`{short(d_ast, 60)}` = {val} when use_checkpoints", "" if val == 0 else "in checkpoint mode only the assessment may release training iterations: this default releases steps that the window will release again", loc(mi, d_ast),
                   cfg.describe_path(witness) if witness else None)
         ck.ob("R5-release-loop", TQ, "trip-from-result", n_res >= 1, f"{n_res} definition(s) of `{tvar}` come from the assessment", "" if n_res else "every definition of the trip count that reaches the release loop in checkpoint mode is a constant: the assessment's released step count never reaches the loop", loc(mi, lp.ast))
@@ -1043,6 +1052,7 @@ _STATE_METHODS = (
     ("    if checkpoint_state.min_return < checkpoint_state.best_min_return:", "    if checkpoint_state.below_best:"),
 )
 MUTANTS = [
+    {"id": "c15-td7-release-overwritten-after-assessment", "file": "rl_blox/algorithm/td7.py", "rule": "R5", "find": '            if logger is not None and training_steps > 0:\n', "replace": '            if epoch < 0:\n                training_steps = 0\n            if logger is not None and training_steps > 0:\n'},
     {"id": "c15-branchy-max", "file": _C, "rule": "R", "find": "    checkpoint_state.min_return = min(\n        checkpoint_state.min_return, episode_return\n    )", "replace": "    if episode_return > checkpoint_state.min_return:\n        checkpoint_state.min_return = episode_return"},
     {"id": "c15-td7-result-swapped", "file": _T, "rule": "R5", "find": "                update_checkpoint, training_steps = (\n                    assess_performance_and_checkpoint(", "replace": "                training_steps, update_checkpoint = (\n                    assess_performance_and_checkpoint("},
     {"id": "c15-td7-while-off-by-one", "file": _T, "rule": "R5", "edits": [("            for delayed_train_step_idx in range(1, training_steps + 1):\n                epoch += 1\n", "            delayed_train_step_idx = 1\n            while delayed_train_step_idx < training_steps:\n                delayed_train_step_idx += 1\n                epoch += 1\n")]},
